@@ -479,8 +479,8 @@ HARNESSES = [
     ),
     Harness(
         "filter_api", h_filter_api, body_filter_api,
-        classes=[(sh + ":hit", sh) for sh in _calq.SHAPES] + [("comp:miss", "comp"), ("prop-text:miss", "prop-text")],
-        parts={"quick": list(_calq.SHAPES)}, bounds={"quick": {"slen": 2}, "thorough": {"slen": 3}},
+        classes=[(sh + ":hit", sh) for sh in _calq.SHAPES + _calq.SHAPES2] + [("comp:miss", "comp"), ("prop-text:miss", "prop-text")],
+        parts={"quick": list(_calq.SHAPES + _calq.SHAPES2)}, bounds={"quick": {"slen": 2}, "thorough": {"slen": 3}},
         budget={"quick": 60, "thorough": 420},
         describe="CalendarFilter.check on a calendar of <= 2 components vs the 9.7 reference; filter built through "
                  "the filter_* API; part = filter shape",
@@ -491,8 +491,8 @@ HARNESSES = [
     ),
     Harness(
         "filter_xml", h_filter_xml, body_filter_xml,
-        classes=[(sh + ":hit", sh) for sh in _calq.SHAPES],
-        parts={"quick": list(_calq.SHAPES)}, bounds={"quick": {"slen": 2}, "thorough": {"slen": 3}},
+        classes=[(sh + ":hit", sh) for sh in _calq.SHAPES + _calq.SHAPES2],
+        parts={"quick": list(_calq.SHAPES + _calq.SHAPES2)}, bounds={"quick": {"slen": 2}, "thorough": {"slen": 3}},
         budget={"quick": 60, "thorough": 420},
         describe="same, the filter compiled from a CALDAV:filter element by the real parse_filter",
         encodes=["xandikos.caldav.parse_filter", "xandikos.caldav.parse_comp_filter", "xandikos.caldav.parse_prop_filter",
@@ -502,8 +502,9 @@ HARNESSES = [
     Harness(
         "report", h_report, body_report,
         classes=[("matched:1", "prop-text"), ("matched:0", "comp"), ("matched:2", "comp"), ("matched:1", "comp-range")],
-        parts={"quick": ["comp", "prop-text", "comp-range", "prop-undef"],
-               "thorough": ["comp", "comp-undef", "prop-present", "prop-undef", "prop-text", "comp-range", "prop-range", "range+text"]},
+        parts={"quick": ["comp", "prop-text", "comp-range", "prop-undef", "text+range-prop", "undef+present"],
+               "thorough": ["comp", "comp-undef", "prop-present", "prop-undef", "prop-text", "comp-range", "prop-range", "range+text",
+                            "text+range-prop", "range-prop+text", "undef+present", "present+undef"]},
         bounds={"quick": {"slen": 2}, "thorough": {"slen": 3}}, budget={"quick": 75, "thorough": 420},
         describe="REPORT calendar-query through the real XandikosApp / CalendarCollection.calendar_query / "
                  "Store.iter_with_filter on a calendar of <= 2 members: exactly the matching members, each once, "
